@@ -4,6 +4,7 @@
 import Umya.Lemmas.Formula
 import Umya.Lemmas.FormulaRemove
 import Umya.Thm.C09
+import Umya.Lemmas.FormulaGen
 namespace Umya.Thm.C08
 open Umya.Coord Umya.Dec Umya.Formula
 
@@ -202,5 +203,14 @@ example : FitsInsert (.two ⟨some ⟨2, false⟩, some ⟨2, false⟩⟩ ⟨som
   intro k hk
   rcases hk with h | h <;> subst h <;> intro x hx <;> injection hx with hx <;> subst hx <;>
     simp [Spec.insNum, Spec.maxRow]
+
+
+/-- **Tie to the source (T).**  `translate_part` (a column / row part moved by an offset unless locked; `None`
+    when it leaves `1..=max`) and the grid limits `MAX_COLUMN_NUM` / `MAX_ROW_NUM` of helper/formula.rs, as
+    regenerated from the source on this run, are the model's `translatePart`, `maxCol`, `maxRow`. -/
+theorem C08_kernels_match_source (p : Umya.Formula.Part) (d : Int) (max : Nat) :
+    (Umya.Gen.translate_part ((p.1 : Int), p.2) d max).map (fun q => (q.1.toNat, q.2)) = Umya.Formula.translatePart p d max ∧
+    Umya.Gen.max_column_num = Umya.Formula.maxCol ∧ Umya.Gen.max_row_num = Umya.Formula.maxRow :=
+  ⟨Umya.Gen.gen_translate_part p d max, Umya.Gen.gen_grid_limits.1, Umya.Gen.gen_grid_limits.2⟩
 
 end Umya.Thm.C08
